@@ -211,6 +211,38 @@ def executions(tier, seed):
             all_shapes.append({'frag': False, 'crcp': crcp, 'blocks': [(i + crcp) % 3 for i in range(nblk)],
                                'admin': False, 'times': False, 'rfrag': False})
     traces, metas = [], []
+    # bundles an independent encoder can produce whose payload the codec must leave alone or whose flags carry
+    # bits it has no name for: fragments of administrative records (the payload is a slice of a record),
+    # administrative records of types it does not know (any CBOR value), reserved flag bits
+    status = bp7.enc([1, [[[True], [False], [False], [False]], 0, bp7.text_to_eid('dtn://s/x'), [5, 0]]])
+    specials = []
+    for (o, n) in ((0, 5), (4, 9), (len(status) - 3, 3), (2, 0)):
+        specials.append(('fragment of an administrative record [%d,+%d)' % (o, n), 0x3, 0, status[o:o + n], (o, len(status))))
+    for (label, val) in (('byte string', b'\x01'), ('byte string that is itself CBOR', bp7.enc([1, 2])), ('text', 'x'),
+                         ('unsigned', 24), ('array', [1, 'x', b'']), ('empty array', []), ('map', {1: 2})):
+        specials.append(('administrative record of unknown type, value: ' + label, 0x2, 0, bp7.enc([7, val]), None))
+    for (bflags, kflags) in ((0x8, 0), (0x200000, 0), (0x200008 | 0x4, 0x8), (0x80, 0x20), (0x100000 | 0x40, 0x28 | 0x1)):
+        specials.append(('reserved flag bits %#x / %#x' % (bflags, kflags), bflags, kflags, b'payload', None))
+    for (i, (label, bflags, kflags, pay, frag)) in enumerate(specials):
+        for crc in (0, 1, 2):
+            prim = {'flags': bflags, 'crc_type': crc, 'dest': 'dtn://node/svc', 'src': 'ipn:1.2', 'rpt': 'dtn:none',
+                    'ts_time': 1000 + i, 'ts_seq': crc, 'lifetime': 3600}
+            if frag:
+                prim['frag_off'], prim['total'] = frag
+            blocks = [{'type': 192, 'num': 2, 'flags': kflags, 'crc_type': crc, 'data': bp7.enc([1])},
+                      {'type': 1, 'num': 1, 'flags': kflags & ~0x1, 'crc_type': crc, 'data': pay}]
+            want = want_fields(prim, blocks)
+            octets2 = bp7.write_bundle(prim, blocks)
+            try:
+                dec = Bundle(octets2)
+                ev = {'a': 'Dec', 'decoded': True, 'impl': impl_fields(dec), 'want': want,
+                      'same': bytes(dec) == octets2, 'crcs_ok': dec.check_all_crc() == set()}
+            except Exception as err:
+                ev = {'a': 'Dec', 'decoded': False, 'impl': {}, 'want': want, 'same': False, 'crcs_ok': False,
+                      'err': repr(err)[:80]}
+            traces.append([ev])
+            metas.append({'shape': {'special': label, 'crc': crc}, 'dest': prim['dest'], 'src': prim['src'],
+                          'rpt': prim['rpt']})
     for shape in all_shapes:
         for _ in range(reps):
             prim, blocks = values_for(shape, rnd)
